@@ -224,7 +224,7 @@ func runC07(c *ctx) {
 
 	obs := make([]c07Obs, len(specs))
 	var wg sync.WaitGroup
-	sem := make(chan struct{}, 8)
+	sem := make(chan struct{}, vlib.Conc(8))
 	for i := range specs {
 		wg.Add(1)
 		sem <- struct{}{}
